@@ -47,6 +47,13 @@ class Scheduler final {
 
   static void Suspend();
 
+#ifdef YACLIB_VERIF
+  // true if some other fiber is runnable or sleeping, i.e. a yield of the current fiber can change anything
+  [[nodiscard]] bool HasOthers() const noexcept {
+    return !_queue.Empty() || !_sleep_list.empty();
+  }
+#endif
+
  private:
   void AdvanceTime() noexcept;
 
